@@ -676,5 +676,5 @@ func TestC13(t *testing.T) {
 	s.SetRule("rapid: sequences of 1-25 edits on one rule file (AddRule/UpdateRule/RemoveRule/ReorderRules/Add-/Update-/RemovePrincipal) or one root (root and primary-rule-file principals and thresholds, global rules, propagation directives, controller/network repositories, GitHub apps, hooks, location) in schema v0.1 and v0.2, arguments drawn from valid and invalid values (unknown/duplicated principal ids, thresholds -1..4, reserved names, nil and foreign principal types, bad glob patterns, invalid hook stage). After every edit: well-formedness invariants, refused edit => byte-identical JSON, reload and v0.1->v0.2 migration answer every query identically. Second campaign (repository API on a real repository): 3-7 AddDelegation / UpdateDelegation / RemoveDelegation calls on the primary rule file and a delegated file with names from a small pool and its decorated variants (surrounding blanks, tab, case, reserved prefix); after every call the staged policy loads, rule names are unique across all rule files, an accepted add recorded exactly the requested name in the requested file, a refused call changed nothing; finally ApplyPolicy + reload. Non-trivial: >=5 accepted and >=1 refused edit")
 	kit.Campaign(s, t, "edits", "edits", s.Budget(60_000, 2_000_000), genC13, run)
 	// repository-API clause: rule names unique across all rule files (real repository)
-	kit.Campaign(s, t, "api-names", "api", s.Budget(32, 1_600), genC13API, func(c c13APICase) *kit.Failure { return runC13API(t, s, c) })
+	kit.Campaign(s, t, "api-names", "api", s.Budget(32, 480), genC13API, func(c c13APICase) *kit.Failure { return runC13API(t, s, c) })
 }
